@@ -24,7 +24,7 @@ BUDGET = {"quick": 600, "thorough": 3000}
 FSETS = ["spread", "typical", "typical-imag", "zero-and-tiny", "single-high"]
 FSETS_T = FSETS + ["typical-b", "typical-c", "clustered"]
 WEIGHTS = ["ones", "mixed", "huge"]
-CUTOFF = [None, 0.0, "between", "above-all", 1e-3]
+CUTOFF = [None, 0.0, "between", "above-all", 1e-3, -1.0]
 IMAG = ["as-is", "pretend_real"]
 BANDS = [None, "subset", "unsorted"]
 PROJ = [False, True]
